@@ -113,6 +113,9 @@ def corpus(tier):
         out.append(scripted_plan('downloader', size, {'offset_delta': 1000000}))
         out.append(scripted_plan('downloader', size, {'after_all': 'never_close'}))
         out.append(scripted_plan('downloader', size, {'read_bytes': 0, 'stop_how': 'close'}))
+        # the local file is longer than the size announced now (stale version on disk / surplus of an earlier attempt)
+        for junk in (1, 1000):
+            out.append(scripted_plan('uploader', size, {}, prefix=size, prefix_junk=junk))
         # a downloader that stops reading (everything fits the socket buffers) and never ends the connection
         out.append(scripted_plan('downloader', size, {'read_bytes': 0, 'stop_how': 'stall'}))
         out.append(scripted_plan('downloader', size, {'read_bytes': max(size // 2, 1), 'stop_how': 'stall'}))
@@ -157,6 +160,8 @@ def generate(rng, index, tier):
         plan = scripted_plan(role, size, beh, seed=rng.getrandbits(32))
         plan['net'] = common.draw_net(rng)
         plan['prefix'] = rng.choice([0, 0, 0, 1, size // 2, size]) if role == 'uploader' else 0
+        if plan['prefix'] == size and role == 'uploader' and rng.random() < 0.5:
+            plan['prefix_junk'] = rng.choice([1, 128, 5000])
         plan['mode'] = rng.choice(('race', 'fallback'))
         return plan
     size = rng.choice(SIZES)
@@ -525,7 +530,7 @@ def _run_scripted(world: World, plan):
     if role == 'uploader' and beh.get('announce_delta', 0) < 0:
         announced = source[:max(size + beh['announce_delta'], 0)]
     mon = SideMonitor(world, 'alice', announced, 'download' if role == 'uploader' else 'upload',
-                      honest_content=not (beh.get('extra_len') or beh.get('announce_delta')))
+                      honest_content=not (beh.get('extra_len') or beh.get('announce_delta') or plan.get('prefix_junk')))
     world.keep_alive.append(mon)
     fired = world.net.fired
 
@@ -566,6 +571,10 @@ def _run_scripted(world: World, plan):
                 os.makedirs(ddir, exist_ok=True)
                 with open(os.path.join(ddir, fname), 'wb') as fh:
                     fh.write(source[:min(plan['prefix'], size)])
+                    if plan.get('prefix_junk'):
+                        # a stale local file that is longer than what the peer announces now
+                        fh.write(pattern_bytes(plan['prefix_junk'], 5))
+                        fired['local_file_longer_than_remote'] += 1
                 results['preset'] = os.path.join(ddir, fname)
             c = world.call(alice, 'download', alice.client.transfers.download, 'mallory', path)
             await c.task
@@ -631,6 +640,6 @@ def _run_scripted(world: World, plan):
         world.violate('C04.fault_state', what='loop exception handler', exc=rec.get('exc_type'), coro=rec.get('coro'),
                       shape='scripted')
         break
-    nontrivial = bool(beh)
+    nontrivial = bool(beh) or bool(plan.get('prefix_junk'))
     sig = ['scripted', role, sc, sorted(beh.items()), [s[2] for s in mon.path_states], bool(plan.get('prefix'))]
     return common.finish(world, nontrivial, sig)
